@@ -111,6 +111,8 @@ class VM:
         self.total_decisions = 0
         self.n_unknown = 0
         self.query_timeout_ms = 10000
+        self.incremental_timeout_ms = 1500
+        self.n_fresh = 0
         self.fork_ctl = None          # symvm.forkctl.ForkCtl: fork at two-sided branches instead of re-executing
         self.on_fork_child = None
         self.fork_collect = None
@@ -138,6 +140,7 @@ class VM:
         self.named = {}           # harness-level named inputs (lazily created): name -> (kind, payload)
         self.unproven = False     # path passed through a side whose feasibility z3 could not decide
         self.universe = []        # byte strings in existence (for the freshness of ideal-function outputs)
+        self.run_bytes = []       # (run id, offset term, byte term): bytes read from inside opaque runs
         self.notes = []
 
     def explore(self, entry, max_paths=10 ** 9, on_path=None, deadline=None):
@@ -209,16 +212,20 @@ class VM:
         t = time.time()
         self._sync()
         self.solver.push()
-        if timeout_ms is not None:
-            self.solver.s.set('timeout', timeout_ms)
+        full = timeout_ms if timeout_ms is not None else self.query_timeout_ms
+        quick = min(full, self.incremental_timeout_ms)
+        self.solver.s.set('timeout', quick)
         try:
             self.solver.add(extra)
             r = self.solver.check()
             m = z3.model_dict(self.solver.model()) if (r == z3.sat and want_model) else None
         finally:
             self.solver.pop()
-            if timeout_ms is not None:
-                self.solver.s.set('timeout', self.query_timeout_ms)
+            self.solver.s.set('timeout', self.query_timeout_ms)
+        if r == z3.unknown:
+            # second opinion from a fresh non-incremental solver (different strategy inside z3)
+            r, m = z3.check_fresh(list(self.pc) + [extra], full, want_model)
+            self.n_fresh += 1
         self.nq += 1
         self.tq += time.time() - t
         if r == z3.unknown:
@@ -350,6 +357,45 @@ class VM:
                     self.unproven = True
                 return side
         raise RuntimeError('revisiting exhausted node')
+
+    def _is_wide(self, v):
+        lo, hi = z3.bounds(zint(v))
+        return lo is None or hi is None or hi > 2 ** 32 or lo < -2 ** 32
+
+    def path_bounds(self, t):
+        """Interval of an Int term: its own interval tightened by comparisons with constants already on the path."""
+        lo, hi = z3.bounds(t)
+        if t.op == 'add' and t.args[-1].op == 'const' and len(t.args) == 2:
+            l2, h2 = self.path_bounds(t.args[0])
+            k = t.args[-1].args[0]
+            l2 = None if l2 is None else l2 + k
+            h2 = None if h2 is None else h2 + k
+            lo = l2 if lo is None else (lo if l2 is None else max(lo, l2))
+            hi = h2 if hi is None else (hi if h2 is None else min(hi, h2))
+        for e in self.pc:
+            neg = e.op == 'not'
+            c = e.args[0] if neg else e
+            if c.op == 'le':
+                a, b = c.args
+                if a is t and b.op == 'const':          # t <= k   /  not: t > k
+                    k = b.args[0]
+                    if neg:
+                        lo = k + 1 if lo is None else max(lo, k + 1)
+                    else:
+                        hi = k if hi is None else min(hi, k)
+                elif b is t and a.op == 'const':        # k <= t   /  not: t < k
+                    k = a.args[0]
+                    if neg:
+                        hi = k - 1 if hi is None else min(hi, k - 1)
+                    else:
+                        lo = k if lo is None else max(lo, k)
+            elif c.op == 'eq' and not neg:
+                a, b = c.args
+                if a is t and b.op == 'const':
+                    lo = hi = b.args[0]
+                elif b is t and a.op == 'const':
+                    lo = hi = a.args[0]
+        return lo, hi
 
     def choose_int(self, v, lo, hi):
         """Concretise a symbolic int known to lie in [lo, hi] by forking."""
@@ -485,6 +531,9 @@ class VM:
             else:
                 raise RuntimeError('input kind ' + kind)
         named = {}
+        for rid, off, b in self.run_bytes:
+            o = int(z3.evaluate(off, model)) if z3.is_expr(off) else off
+            named[f'runbyte|{rid}|{o}'] = int(z3.evaluate(b, model))
         for name, (kind, t) in self.named.items():
             v = z3.evaluate(t, model)
             named[name] = bool(v) if kind == 'bool' else int(v)
@@ -528,6 +577,11 @@ class VM:
         if isinstance(v, SBytes):
             ln = v.length()
             return self.branch(mk_bool(zint(ln) > 0)) if is_sym(ln) else ln > 0
+        from . import models_str as ms
+        if isinstance(v, ms.SStr):
+            return len(v.a) > 0
+        if isinstance(v, (ms.SFloat,)):
+            return True                 # an SFloat is a non-zero normal number by construction
         if isinstance(v, Sym):
             raise Unsupported('truth of ' + type(v).__name__)
         if self.is_interp_class(type(v)):
@@ -688,6 +742,15 @@ class VM:
                         return r
                     x, y = zint(a), zint(b)
                     return mk_bool({ast.Lt: x < y, ast.LtE: x <= y, ast.Gt: x > y, ast.GtE: x >= y}[t])
+                refl = {ast.Lt: '__gt__', ast.LtE: '__ge__', ast.Gt: '__lt__', ast.GtE: '__le__'}[t]
+                direct = {ast.Lt: '__lt__', ast.LtE: '__le__', ast.Gt: '__gt__', ast.GtE: '__ge__'}[t]
+                for obj, other, name in ((a, b, direct), (b, a, refl)):
+                    if not is_sym(obj) and self.is_interp_class(type(obj)):
+                        m = self.static_lookup(type(obj), name)
+                        if m is not None and self.is_interp_callable(m):
+                            r = self.call(m, [obj, other], {})
+                            if r is not NotImplemented:
+                                return r
                 raise Unsupported('ordering with symbolic non-int')
             from . import models_str as ms
             if isinstance(a, (SBytes, bytes, bytearray, ms.SStr, str)) and isinstance(b, (SBytes, bytes, bytearray, ms.SStr, str)):
@@ -1635,7 +1698,17 @@ class VM:
             return mk_int(x - y)
         if t is ast.Mult:
             if is_sym(a) and is_sym(b):
-                raise Unsupported('symbolic * symbolic')
+                # case-split the factor with the smaller known range (<= 256 values): the product stays linear
+                best = None
+                for v in (a, b):
+                    lo, hi = self.path_bounds(zint(v))
+                    if lo is not None and hi is not None and hi - lo <= 256 and (best is None or hi - lo < best[1]):
+                        best = (v, hi - lo, lo, hi)
+                if best is None:
+                    raise Unsupported('symbolic * symbolic')
+                c = self.choose_int(best[0], best[2], best[3])
+                other = b if best[0] is a else a
+                return mk_int(zint(other) * c)
             return mk_int(x * y)
         if t in (ast.FloorDiv, ast.Mod):
             if is_sym(b):
@@ -1644,6 +1717,10 @@ class VM:
                 raise ZeroDivisionError('integer division or modulo by zero')
             if b < 0:
                 raise Unsupported('negative divisor')
+            if is_sym(a) and (b >= 256 or self._is_wide(a)):
+                from . import models
+                q, r = models.int_divmod(self, a, b)       # fresh quotient/remainder + one linear equation
+                return q if t is ast.FloorDiv else r
             return mk_int(x / y) if t is ast.FloorDiv else mk_int(x % y)
         if t is ast.LShift:
             if is_sym(b):
@@ -1652,6 +1729,9 @@ class VM:
         if t is ast.RShift:
             if is_sym(b):
                 raise Unsupported('shift by symbolic')
+            if b >= 8 and is_sym(a):
+                from . import models
+                return models.int_divmod(self, a, 1 << b)[0]
             return mk_int(x / (1 << b))
         if t is ast.BitAnd:
             c, s = (b, a) if is_sym(a) and not is_sym(b) else (a, b) if not is_sym(a) else (None, None)
@@ -1659,6 +1739,12 @@ class VM:
                 return self.bv_binop(t, a, b)          # stays in the bit-vector domain (ids)
             if c is not None and c >= 0:
                 if c & (c + 1) == 0:  # low mask 2^k-1
+                    if c >= 255 and isinstance(s, SInt):
+                        lo_, hi_ = self.path_bounds(s.e)
+                        if lo_ is not None and hi_ is not None and 0 <= lo_ and hi_ <= c:
+                            return s
+                        from . import models
+                        return models.int_divmod(self, s, c + 1)[1]
                     return mk_int(zint(s) % (c + 1))
                 # general non-negative mask: sum of bit runs
                 res = 0
@@ -1668,16 +1754,26 @@ class VM:
                         j = k
                         while c >> j & 1:
                             j += 1
-                        res = res + ((zint(s) / (1 << k)) % (1 << (j - k))) * (1 << k)
+                        from . import models
+                        part = models.int_divmod(self, s, 1 << k)[0] if k else s
+                        part = models.int_divmod(self, part, 1 << (j - k))[1] if is_sym(part) else part % (1 << (j - k))
+                        res = res + zint(part) * (1 << k)
                         k = j
                     else:
                         k += 1
                 return mk_int(res)
             if c is not None and c < 0 and (~c) & ((~c) + 1) == 0:  # ~(2^k-1)
                 m = (~c) + 1
-                return mk_int(zint(s) - zint(s) % m)
+                from . import models
+                q = models.int_divmod(self, s, m)[0]
+                return mk_int(zint(q) * m)
             return self.bv_binop(t, a, b)
         if t in (ast.BitOr, ast.BitXor):
+            for c, sy in ((a, b), (b, a)):
+                if not is_sym(c) and isinstance(sy, SInt) and not sy.bv and c >= 0:
+                    lo_, hi_ = self.path_bounds(sy.e)
+                    if lo_ is not None and hi_ is not None and lo_ >= 0 and (c == 0 or hi_ < (c & -c)):
+                        return mk_int(sy.e + c)        # disjoint bit ranges: or/xor is addition
             return self.bv_binop(t, a, b)
         if t is ast.Pow:
             if is_sym(b) or is_sym(a):
